@@ -119,7 +119,15 @@ class C16(Profile):
         return "%s:%s%s" % (op["op"], op["via"], ("+" + f["kind"]) if f else "")
 
     def _path(self, world, op):
-        return os.path.join(world.dir, op["f"] + ".txt")
+        name = op["f"] + ".txt"
+        sp = op.get("spell", 0)
+        if sp == 1:
+            return world.dir + "/./" + name
+        if sp == 2:
+            return world.dir + "//" + name
+        if sp == 3:
+            return os.path.join(world.dir, "..", os.path.basename(world.dir), name)
+        return os.path.join(world.dir, name)
 
     def _exec(self, world, op):
         eqsig = self.eqsig
@@ -244,6 +252,14 @@ class C16(Profile):
             if pk:
                 st["faults"][pk]["recovered"] += 1
         v = self._compare(op, out.value, rec)
+        if v is None and op["via"] == "load_values_and_dt":
+            # K4: the caller does what it likes with the array it was given (it owns it); later loads must not care
+            vals = out.value[0]
+            if isinstance(vals, np.ndarray) and vals.flags.writeable and vals.size:
+                vals *= -3.0
+                vals += 1.0
+                st["faults"].setdefault("K4", {"armed": 0, "fired": 0, "recovered": 0})["armed"] += 1
+                st["faults"]["K4"]["fired"] += 1
         if v:
             field, why = v
             return dict(base, invariant="round-trip", field=field,
@@ -372,6 +388,7 @@ class Gen(object):
         self.emitted = 0
         self.files = ["f%d" % i for i in range(config["n_files"])]
         self.last_faulted = None
+        self.saved = {}        # file -> the last few save records issued for it (a caller may save the same record again)
 
     def _plan_sweep(self):
         rng = self.rng
@@ -410,7 +427,7 @@ class Gen(object):
         plan = [save(n0), load(),                                   # preceding event: none
                 save(bigger), save(n0), load(),                      # overwrite by a shorter record
                 save(max(1, n0 - 1) if n0 > 1 else 1), save(n0), load(),   # overwrite by a longer (or equal) record
-                save(n0, {"kind": rng.choice(["K6", "K7", "K8"]), "frac": rng.choice([0.0, 0.5, 0.9]), "errno": "ENOSPC"}),
+                save(n0, {"kind": rng.choice(["K6", "K7", "K8", "K12"]), "frac": rng.choice([0.0, 0.5, 0.9]), "errno": "ENOSPC"}),
                 save(n0), load(),                                    # after a failed save
                 load({"kind": "K9", "at": 0} if rng.random() < 0.5 else {"kind": "K10", "at": rng.choice([0, 1, 2])}),
                 load()]                                              # after a failed load
@@ -431,9 +448,20 @@ class Gen(object):
         if state == UNKNOWN and rng.random() < 0.3:
             op = self.g_load(world, f)      # content unknown after a failed save: any outcome is accepted
         elif not known or rng.random() < 0.35:
-            op = self.g_save(f)
+            old = self.saved.get(f, [])
+            if old and rng.random() < 0.3:
+                op = dict(rng.choice(old))  # exactly the same record, path spelling included, saved once more
+                op.pop("fault", None)
+            else:
+                op = self.g_save(f)
+                if rng.random() < 0.15:
+                    op["spell"] = rng.choice([1, 2, 3])
+            self.saved.setdefault(f, []).append({k: v for k, v in op.items() if k != "fault"})
+            self.saved[f] = self.saved[f][-3:]
         else:
             op = self.g_load(world, f)
+            if rng.random() < 0.1:
+                op["spell"] = rng.choice([1, 2, 3])
         if self.cfg["faults_on"] and self.last_faulted != f:
             self._maybe_fault(op)
             if op.get("fault"):
@@ -502,11 +530,11 @@ class Gen(object):
         rng = self.rng
         if op["op"] == "save":
             if rng.random() < self.cfg["fault_rate"]:
-                k = rng.choice(["K6", "K7", "K8"])
+                k = rng.choice(["K6", "K7", "K8", "K12"])
                 fl = {"kind": k}
                 if k == "K6":
                     fl["errno"] = rng.choice(["EACCES", "ENOSPC", "EMFILE"])
-                if k == "K7":
+                if k in ("K7", "K12"):
                     fl["frac"] = rng.choice([0.0, 0.1, 0.5, 0.9, 0.999])
                 op["fault"] = fl
             return
